@@ -163,7 +163,7 @@ def single_preemptions(K=26):
     out = []
     for a, b in ((0, 1), (1, 0)):
         for k in range(0, K + 1):
-            out.append([a] * k + [b] * LONG + [a] * LONG + [b] * LONG)
+            out.append([a] * k + [b] * LONG + [a] * LONG + [b] * LONG + [a] * LONG + [0, 1] * 90)
     return out
 
 
@@ -172,7 +172,7 @@ def double_preemptions(K=16):
     for a, b in ((0, 1), (1, 0)):
         for k1 in range(1, K + 1):
             for k2 in range(1, K + 1):
-                out.append([a] * k1 + [b] * k2 + [a] * LONG + [b] * LONG + [a] * LONG)
+                out.append([a] * k1 + [b] * k2 + [a] * LONG + [b] * LONG + [a] * LONG + [b] * LONG + [0, 1] * 90)
     return out
 
 
@@ -303,6 +303,17 @@ def c12_families():
         "n": 2, "filters": f, "pre": [(0, ("new", 0, 2, "rlayer")), (0, ("setdefault", 0)), (1, ("setdefault", 0))],
         "progs": [[("emit", 3)], [("emit", 1)]],
         "post": [(1, ("reload", 0, 0)), (0, ("emit", 3)), (0, ("emit", 1)), (1, ("emit", 3)), (1, ("emit", 1))]}))
+    # an emission at a `sometimes` callsite meets a reload INSIDE its write-locked section (the reloader parks at yield 83 holding the
+    # cell's write lock): the emitter's enabled() must WAIT and then be judged by the new value -- both values accept (a dropped
+    # emission is judged by neither), and old accepts / new rejects (either is fine, but it must be one of them)
+    for kind in ("rlayer", "rlayer2", "rfilter"):
+        pre = [(0, ("new", 0, 3, kind)), (0, ("setdefault", 0)), (1, ("setdefault", 0)), (1, ("emit", 3))]
+        fam.append(("emit-meets-writelocked-reload-both-accept-" + kind, {
+            "n": 2, "filters": f + [("dyn", 4, 5)], "pre": list(pre),
+            "progs": [[("reload", 0, 6)], [("emit", 3), ("emit", 3)]], "post": [(1, ("emit", 3)), (0, ("emit", 3))]}))
+        fam.append(("emit-meets-writelocked-reload-new-rejects-" + kind, {
+            "n": 2, "filters": f, "pre": list(pre),
+            "progs": [[("reload", 0, 4)], [("emit", 3), ("emit", 3)]], "post": [(1, ("emit", 3)), (0, ("emit", 3))]}))
     # two reloads whose rebuilds would race on MAX_LEVEL if rebuilds were not serialised: the later assignment (TRACE) must win
     fam.append(("two-reloads-max-level", {
         "n": 2, "filters": f, "pre": [(0, ("new", 0, 0, "rlayer")), (0, ("setdefault", 0)), (1, ("setdefault", 0)), (1, ("emit", 3))],
@@ -499,8 +510,12 @@ def worlds_wf(ctx, rep, cases, tag):
 def diff(case, impl, model):
     """first disagreement between implementation and model, or None"""
     has1 = any(case["progs"])
-    if any(e >= 100 for e in case["sched"]):
-        return None     # schedules with forced releases (threads really blocking in the OS) are judged by the oracle only
+    if any(e >= 100 for e in case["sched"]) or 996 in (impl["yields"] or []):
+        # forced releases / a thread that really went to sleep on a lock in the OS (only the reloadable cell's lock, held by a reloader
+        # parked at yield 83): it wakes by itself as soon as the lock is freed and runs on to its next yield point -- a writer thereby
+        # takes the cell's lock before the schedule entry that accounts for the step -- which the model's one-step-per-entry semantics
+        # does not describe.  Such cases are judged by the oracle only (counted as `slept-on-a-lock`)
+        return None
     for ph in ("pre", "post"):
         a, b = impl[ph], model[ph]
         if len(a) != len(b):
@@ -509,6 +524,12 @@ def diff(case, impl, model):
             if (x[0], [list(e) for e in x[1]], x[2]) != (y[0], y[1], y[2]):
                 return {"where": "%s op %d %s" % (ph, i, case[ph][i]), "impl": x, "model": y}
     if has1:
+        # 996 = the released thread really went to sleep on a lock in the OS (only the reloadable cell's lock, held by a reloader parked
+        # at yield 83, or a forced release).  It wakes by itself as soon as the lock is freed and runs on to its next yield point -- a
+        # writer thereby takes the cell's lock before the schedule entry that accounts for the step -- which the model's one-step-per-
+        # entry semantics does not describe: such cases are judged by the oracle only
+        if 996 in (impl["yields"] or []):
+            return None     # see the comment above: judged by the oracle only (counted as `slept-on-a-lock` by the caller)
         if impl["yields"] != model["yields"]:
             k = next((i for i, (x, y) in enumerate(zip(impl["yields"] or [], model["yields"])) if x != y), -1)
             return {"where": "yields", "first_index": k, "impl": (impl["yields"] or [])[max(0, k - 3):k + 4],
